@@ -114,7 +114,8 @@ struct xml_suite_context {
     FILE* outFile;
     uint32_t suite_duration;
 };
-static struct xml_suite_context context_stack[NESTED_SUITE_MAX];
+static struct xml_suite_context *context_stack = NULL;
+static int context_stack_size = 0;
 static int context_stack_p = 0;
 
 /*
@@ -210,8 +211,12 @@ static void xml_reporter_start_suite(TestReporter *reporter, const char *suitena
     char filename[PATH_MAX];
     int segment_decrementer = reporter->breadcrumb->depth;
     XmlMemo *memo = (XmlMemo *)reporter->memo;
-    if (context_stack_p >= NESTED_SUITE_MAX)
-        abort();
+    if (context_stack_p >= context_stack_size) {
+        context_stack_size += NESTED_SUITE_MAX;
+        context_stack = realloc(context_stack, sizeof(struct xml_suite_context) * context_stack_size);
+        if (context_stack == NULL)
+            abort();
+    }
     struct xml_suite_context *ctx = &context_stack[context_stack_p++];
 
     FILE *out;
